@@ -28,6 +28,20 @@ def contents(rng, n):
     return out
 
 
+NAME_PLACES = [
+    "select {q} from t9", "select t9.{q} from t9", "select {q}.c9 from t9", "select s9.{q}.c9 from t9", "select f9(x9).{q} from t9",
+    "select (a9).{q} from t9", "select a9[0].{q} from t9", "select a9:b9.{q} from t9", "select a9 from t9 where {q} = 1",
+    "select a9 from t9 group by {q}", "select a9 from t9 order by {q} desc", "select f9({q}, 1) from t9",
+    "select a9 from t9 join u9 on t9.{q} = u9.{q}", "select a9 from t9 join u9 using ({q})", "insert into t9 ({q}) values (1)",
+    "insert into {q} (a9) values (1)", "update t9 set {q} = 1", "update {q} set a9 = 1", "delete from {q} where a9 = 1",
+    "create table {q} (a9 int)", "create table t9 ({q} int)", "select a9 from s9.{q}", "select a9 from {q} as x9",
+    "select a9 from t9 as {q}", "select a9 as {q} from t9", "with {q} as (select 1) select * from {q}",
+    "select sum(a9) over (partition by {q} order by {q}) from t9", "select a9 from t9 where b9 in (select {q} from u9)",
+    "select case when {q} > 1 then {q} else 0 end from t9", "select cast({q} as int) from t9", "drop table {q}",
+    "create index i9 on t9 ({q})", "create view {q} as select 1",
+]
+
+
 def run(ctx, scale=1):
     rep = ctx.rep
     rng = ctx.rng
@@ -47,6 +61,9 @@ def run(ctx, scale=1):
     stmts += [(s, "extra") for s in ["select a - b from t", "select a -b from t", "select a- b from t", "select 1-2", "select a from t -- x-y\n",
                                      "select 'a-b', 'x\"y', '[z]', '`q`', '@v' from t", "select a /* [x] \"y\" `z` */ from t", "select 3-a from t",
                                      "select a$b, _c from t", "select a from t where b = 'it''s' and c<>-1"]]
+    # the whole operator table side by side: a dialect whose operator order / flattening differs shows here
+    import precprobe
+    stmts += [(s, "operators") for s in precprobe.statements()]
     for sql, origin in stmts:
         # quoted lexemes and comments may contain anything; judge neutrality on the rest
         bare = re.sub(r"'(?:''|[^'])*'|--[^\n]*|#[^\n]*|/\*.*?\*/", " ", sql, flags=re.S)
@@ -74,7 +91,32 @@ def run(ctx, scale=1):
                 for d in DIALECTS:
                     jobs.append((tpl.format(q=q), d, {}))
                     metas.append(("quoted", c, style, pos, d))
+    # ---- the quoting rules hold at EVERY place a name can stand, not only where the statement starts: a plain name in
+    #      quotes reads exactly like the bare name (backticks everywhere; double quotes for parse / parse_sqlserver;
+    #      square brackets for parse_sqlserver)
+    for tpl in NAME_PLACES:
+        for nm in ("fld9", "Fld_9x"):
+            for d in DIALECTS:
+                jobs.append((tpl.format(q=nm), d, {}))
+                metas.append(("place-base", tpl, nm, d))
+                for style, q in (("bt", "`%s`" % nm), ("dq", '"%s"' % nm), ("sq", "[%s]" % nm)):
+                    if (style == "dq" and d not in ("common", "sqlserver")) or (style == "sq" and d != "sqlserver"):
+                        continue
+                    jobs.append((tpl.format(q=q), d, {}))
+                    metas.append(("place", tpl, nm, d, style))
     outs = C.parse_many(jobs)
+    place_base = {(mt[1], mt[2], mt[3]): o for mt, o in zip(metas, outs) if mt[0] == "place-base"}
+    for job, mt, o in zip(jobs, metas, outs):
+        if mt[0] != "place":
+            continue
+        _, tpl, nm, d, style = mt
+        rep.case(job[0] + "|" + d)
+        rep.count("place", style)
+        base = place_base[(tpl, nm, d)]
+        if (o if o.startswith('{"ok"') else "reject") != (base if base.startswith('{"ok"') else "reject"):
+            rep.finding("quoted-place:%s:%s:%s" % (style, d, NAME_PLACES.index(tpl)),
+                        "%s: %r -> %s but the bare name gives %s" % (d, job[0], o[:140], base[:140]),
+                        {"kind": "place", "sql": job[0], "bare": tpl.format(q=nm), "dialect": d})
     # neutral: all four agree
     groups = {}
     for (job, mt, o) in zip(jobs, metas, outs):
@@ -131,6 +173,13 @@ def search(ctx):
 
 def replay(ctx, p):
     R = C.real()
+    if p["kind"] == "place":
+        R = C.real()
+        a = R.parse_raw(p["sql"], p["dialect"])
+        b = R.parse_raw(p["bare"], p["dialect"])
+        print(p["sql"], "->", a[:2])
+        print(p["bare"], "->", b[:2])
+        return C.cdump(C.canon(a[1]) if a[0] == "ok" else a[1]) != C.cdump(C.canon(b[1]) if b[0] == "ok" else b[1])
     if p["kind"] == "neutral":
         kw = {"all_columns": p["all_columns"]} if p.get("all_columns") else {}
         outs = {d: C.cdump(R.parse(p["sql"], d, **kw)) for d in DIALECTS}
